@@ -82,3 +82,10 @@ Proof.
   revert l; induction y as [|y IH]; intros l; simpl; [reflexivity|].
   destruct l as [|a l]; [rewrite skipn_nil; reflexivity|apply IH].
 Qed.
+
+Lemma nth_error_firstn_lt {A} (l : list A) : forall n i, i < n -> nth_error (firstn n l) i = nth_error l i.
+Proof.
+  induction l as [|x l IH]; intros n i H.
+  - rewrite firstn_nil. reflexivity.
+  - destruct n; [lia|]. destruct i; simpl; [reflexivity|]. apply IH. lia.
+Qed.
